@@ -22,7 +22,8 @@ import c11
 from httpgen import b64
 
 THEOREMS = ["C10_created_then_readable", "C10_duplicate_conflicts", "C10_unknown_not_found", "C10_read",
-            "C10_deleted_then_gone", "C10_replaced_then_read", "C10_own_id_refuted", "C10_own_id_partial",
+            "C10_deleted_then_gone", "C10_replaced_then_read", "C10_rekeyed_then_read", "C10_rekey_conflict", "C10_rekey_example",
+            "C10_own_id", "C10_own_id_example",
             "C10_page_is_slice", "C10_paging", "C10_filtered_page_submodels", "C10_filtered_page_shells",
             "C10_filtered_page_example", "C10_filtered_paging", "C10_mutators_commit", "C10_example_history"]
 VO = ["theories/props/C10.vo", "theories/model/HttpObs.vo"]
@@ -123,6 +124,8 @@ def gen_request(rng):
         return rq(one + suffix, "GET", query=q, cls="get-" + kind, **{arg: seg})
     if x < 0.40:
         q = [("level", "core")] if rng.random() < 0.2 else []
+        if rng.random() < 0.2:      # a document with another id of the pool (free: the object is filed anew; taken: 409)
+            return rq(one, "PUT", body=("val", fmt, mk_top(rng, kind, rng.choice(IDS[kind]))), query=q, cls="put-other-id-" + kind, **{arg: seg})
         return rq(one, "PUT", body=("val", fmt, mk_top(rng, kind, i)), query=q, cls="put-" + kind, **{arg: seg})
     if x < 0.45:
         return rq(one, "DELETE", cls="delete-" + kind, **{arg: seg})
@@ -457,17 +460,23 @@ def oracle_history(srv, backed, reqs, routes):
                     if norm(got) != norm(ref[ident][1]):
                         fails.append((k, "read-content", "GET returned other content than the reference repository holds", ep))
             elif ep.startswith("put_") and val is not None and val["k"] == want_cls[kind]:
-                if (st == 204) != present and st in (204, 404):
-                    fails.append((k, "replace", f"PUT answered {st}, reference {'has' if present else 'does not have'} the identifier", ep))
+                # a map from id to object: replaced under the same id; re-keyed if the document carries another, free id;
+                # refused (409, nothing changed) if that id belongs to another object
+                exp = 404 if not present else (409 if val["id"] != ident and val["id"] in ref else 204)
+                if st != exp and st in (204, 404, 409):
+                    fails.append((k, "replace", f"PUT of a document with {'the same' if val['id'] == ident else 'another'} id answered {st}, "
+                                                f"the reference repository says {exp}", ep))
                 if st == 204 and present:
                     new = dict(val)
                     if core and kind == "sm":
                         new = dict(val, quals=[], elems=[])
                     if core and kind == "shell":
                         new = dict(val, refs=[])
-                    ref[ident] = (kind, new)
+                    ref.pop(ident)
+                    refs.pop(ident, None)
+                    ref[val["id"]] = (kind, new)
                     if kind == "shell":
-                        refs[ident] = set(new["refs"])
+                        refs[val["id"]] = set(new["refs"])
             elif ep.startswith("delete_"):
                 if (st == 204) != present and st in (204, 404):
                     fails.append((k, "delete", f"DELETE answered {st}, reference {'has' if present else 'does not have'} the identifier", ep))
@@ -503,6 +512,9 @@ def oracle_history(srv, backed, reqs, routes):
                         fails.append((k, "reference", f"a submodel reference the shell does not hold is answered {st}", ep))
                     if st == 204 and ep in ("delete_aas_submodel_refs_specific", "delete_aas_submodel_refs_submodel"):
                         refs[a_id].discard(s_id)
+                    if st == 204 and ep == "put_aas_submodel_refs_submodel" and val is not None and val.get("k") == "sm" and val["id"] != s_id:
+                        refs[a_id].discard(s_id)        # the shell's reference follows the re-keyed submodel
+                        refs[a_id].add(val["id"])
                 # the listing of the shell's references = the reference set
                 s2, page = get_json(srv, f"{G.BASE}/shells/{b64(a_id)}/submodel-refs?limit=100")
                 if s2 == 200:
@@ -524,7 +536,8 @@ def oracle_history(srv, backed, reqs, routes):
             if ep == "put_aas_submodel_refs_submodel" and val is not None:
                 lab = H.decode_label(req["sm"])
                 if lab[1] in ref:
-                    ref[lab[1]] = ("sm", None)
+                    ref.pop(lab[1])
+                    ref[val["id"]] = ("sm", None)        # re-keyed if the document carries another id
         # ---- no shell of the pool carries a specificAssetId: a listing filtered by assetIds is empty
         if ep in ("get_aas_all", "get_aas_all_reference") and st == 200 and any(k0 == "assetIds" for k0, _ in req["query"]) \
                 and req["accept"][1] == "json":
@@ -592,7 +605,7 @@ def oracle_history(srv, backed, reqs, routes):
                 "post_submodel_submodel_elements_id_short_path", "post_submodel_submodel_element_qualifiers",
                 "put_submodel_submodel_element_qualifiers", "delete_submodel_submodel_element_qualifiers"):
             uploads.clear()     # elements may have been replaced or removed: forget what was uploaded
-            if ep in ("post_submodel", "put_submodel") and val is not None and val["k"] == "sm" and not core and not CS.renames(req):
+            if ep in ("post_submodel", "put_submodel") and val is not None and val["k"] == "sm" and not core:
                 # ... but a submodel document says what its Blobs hold
                 for e0 in val["elems"]:
                     if e0["mt"] == "Blob" and e0["val"] is not None and G.CTYPES[e0["ctype"]].isprintable():
@@ -609,6 +622,14 @@ def oracle_history(srv, backed, reqs, routes):
             sent = core_view(val) if core else val
             if s_new != 200 or s_old != 404 or norm(got) != norm(sent):
                 fails.append((k, "own-id", f"after a PUT that changed the idShort: GET new path -> {s_new}, GET old path -> {s_old}", ep))
+        if req["method"] == "PUT" and st == 204 and val is not None and val["k"] in ("sm", "shell", "cd") and kind and CS.renames(req):
+            base_u = G.BASE + RULE[kind][0] + "/"
+            s_new, got = get_json(srv, base_u + b64(val["id"]))
+            s_old, _ = get_json(srv, base_u + req[RULE[kind][2]])
+            sent = core_view(val) if core else val
+            if s_new != 200 or s_old != 404 or norm(got) != norm(sent):
+                fails.append((k, "own-id", f"after a PUT that changed the id: GET new id -> {s_new}, GET old id -> {s_old}"
+                                           f"{'' if s_new != 200 or norm(got) == norm(sent) else ', other content than sent'}", ep))
         if req["method"] == "PUT" and st == 204 and val is not None and val["k"] in ("sm", "shell", "cd", "elem") \
                 and req["rule"] in has_get and not CS.renames(req):
             s2, got = get_json(srv, H.url_of(dict(req, query=[])))
@@ -828,7 +849,7 @@ def run(chk):
         plans.append(([], [], k % 2 == 1, reqs, False))
     for (label, backed, reqs, oracle_only) in CS.scenarios():
         if not oracle_only:
-            plans.append(([], [], backed, reqs, False))   # the model follows the renamed store
+            plans.append(([], [], backed, reqs, False))
     # oracle: the reference repository on the same histories
     for (backed, reqs) in hist:
         for (k, kind, text, ep) in oracle_history(srv, backed, reqs, ex["routes"]):
@@ -838,7 +859,7 @@ def run(chk):
         for r in reqs:
             chk.count("class=" + r["cls"])
     for (label, backed, reqs, oracle_only) in CS.scenarios():
-        if not oracle_only and not label.startswith("rename"):
+        if not oracle_only:
             for (k, kind, text, ep) in oracle_history(srv, backed, reqs, ex["routes"]):
                 r = reqs[k]
                 chk.fail(f"C10:{kind}:{ep}:{r.get('cls')}", f"{r['method']} {H.url_of(r)}: {text}",
@@ -860,8 +881,7 @@ def run(chk):
         "werkzeug (URL matching, converters, Accept negotiation, multipart parsing), JSON/XML readers and writers: not modelled",
         "tools/c10.py, c11.py, httpcorr.py, httpgen.py, httpcases.py (generators, canonicalisers, reference repository), tools/common.py",
     ]
-    chk.assumptions = ["body_id_matches (hypothesis of C10_own_id_partial): no PUT whose body carries another id than the URL (open finding)",
-                       "payloads are compared on the modelled attributes (id, idShort, one free attribute = description + semanticId + "
+    chk.assumptions = ["payloads are compared on the modelled attributes (id, idShort, one free attribute = description + semanticId + "
                        "supplementalSemanticIds read together, qualifiers, nested elements, "
                        "File/Blob value and content type, submodel references, globalAssetId)"]
     return chk.finish(level="proof",
